@@ -342,7 +342,8 @@ func Evaluate(c Case) (msg string, class string) {
 		if doc["code"] != wantCode {
 			return fmt.Sprintf("error body code %v, want %q", doc["code"], wantCode), "twirp-err"
 		}
-		if obs.recvOK && doc["msg"] != c.B.Err.Msg {
+		// JSON strings are Unicode: bytes that are not valid UTF-8 can only arrive as U+FFFD
+		if obs.recvOK && doc["msg"] != strings.ToValidUTF8(c.B.Err.Msg, "\ufffd") {
 			return fmt.Sprintf("error body msg %q, want %q", doc["msg"], c.B.Err.Msg), "twirp-err"
 		}
 		if got := res.Header.Get("Content-Type"); got != "application/json" {
@@ -494,7 +495,7 @@ var contentTypes = []string{
 	"*", "text/unknown", "",
 }
 
-var errTexts = []string{"", "x", "a\r\nb", "\n", "ü", "grpc-status: 0", " padded ", strings.Repeat("k", 1024)}
+var errTexts = []string{"", "x", "a\r\nb", "\n", "ü", "grpc-status: 0", " padded ", "ctl\x01\a\v\x7f", "bad\xffutf8", "tag\U000e0001", "q\"\\/<>&", "100% %s", strings.Repeat("k", 1024)}
 
 func errSpecs() []ErrSpec {
 	var out []ErrSpec
